@@ -113,6 +113,14 @@ func (pmt *Pmt) SearchPid(pid uint16) *PmtProgramElement {
 }
 
 func PackPmt(videoCodecId, audioCodecId int) []byte {
+	return PackPmtWithVersion(videoCodecId, audioCodecId, 0)
+}
+
+// PackPmtWithVersion
+//
+// @param version: version_number of the section (5 bits): a pmt whose content differs from the one sent before has to
+// carry another version, otherwise a demuxer may keep the old one
+func PackPmtWithVersion(videoCodecId, audioCodecId int, version uint8) []byte {
 	ts := make([]byte, 188)
 	tsheader := []byte{0x47, 0x50, 0x01, 0x10}
 	copy(ts, tsheader)
@@ -121,6 +129,7 @@ func PackPmt(videoCodecId, audioCodecId int) []byte {
 	psi.sectionData.header.tableId = TsPsiIdPms
 	psi.sectionData.header.sectionSyntaxIndicator = 1
 	psi.sectionData.section.tableIdExtension = 1
+	psi.sectionData.section.versionNumber = version & 0x1f
 	psi.sectionData.section.currentNextIndicator = 1
 	psi.sectionData.pmtData.pcrPid = 0x100
 
